@@ -2,7 +2,9 @@ package main
 
 import (
 	"encoding/json"
+	"fmt"
 	"strings"
+	"sync"
 	"sync/atomic"
 
 	"verif/harness/hist"
@@ -47,9 +49,9 @@ func (h *histRun) run(c *vk.Ctx) {
 }
 
 func (h *histRun) exec(c *vk.Ctx, i int, cfg *hist.Config, ids []string, ops []hist.Op, witnessed *atomic.Int64) {
-	res := hist.RunCase(cfg, ids, ops, false, h.Opt)
+	res := hist.RunCase(cfg, ids, ops, true, h.Opt)
 	if res.Incon != "" {
-		res = hist.RunCase(cfg, ids, ops, false, h.Opt) // retry once
+		res = hist.RunCase(cfg, ids, ops, true, h.Opt) // retry once
 		if res.Incon != "" {
 			c.Inconclusive(h.Prop + " case " + res.Incon)
 			return
@@ -74,9 +76,9 @@ func (h *histRun) exec(c *vk.Ctx, i int, cfg *hist.Config, ids []string, ops []h
 		}
 		own++
 		var witness any
-		if witnessed.Add(1) <= 6 {
-			tr := hist.RunCase(cfg, ids, ops, true, h.Opt)
-			witness = map[string]any{"config": cfg, "slot_client_ids": ids, "ops": ops, "failing_step": f.Step, "trace": tr.Trace, "profile": h.Profile.Name, "case": i}
+		_, dupKey := traceKeys.LoadOrStore(fmt.Sprintf("%s|%s|%v", h.Prop, f.Rule, f.Attrs), true)
+		if witnessed.Add(1) <= 6 || !dupKey {
+			witness = map[string]any{"config": cfg, "slot_client_ids": ids, "ops": ops, "failing_step": f.Step, "trace": res.Trace, "profile": h.Profile.Name, "case": i}
 		} else {
 			witness = map[string]any{"config": cfg, "slot_client_ids": ids, "ops": ops, "failing_step": f.Step, "profile": h.Profile.Name, "case": i}
 		}
@@ -90,6 +92,9 @@ func (h *histRun) exec(c *vk.Ctx, i int, cfg *hist.Config, ids []string, ops []h
 		c.Sample(map[string]any{"profile": h.Profile.Name, "config": cfg, "slot_client_ids": ids, "first_ops": ops[:n], "total_ops": len(ops), "model_counters": res.Counts})
 	}
 }
+
+// traceKeys: the first occurrence of every distinct (rule, attributes) keeps its full trace
+var traceKeys sync.Map
 
 // directed runs one hand-written history through the same engine and classification.
 func (h *histRun) directed(c *vk.Ctx, name string, cfg *hist.Config, ids []string, ops []hist.Op) {
